@@ -18,7 +18,7 @@ type pState struct {
 	trace  []string
 }
 
-func (g *BGr) clone() *BGr { return &BGr{n: g.n, adj: append([]uint32(nil), g.adj...)} }
+func (g *BGr) clone() *BGr { return &BGr{n: g.n, adj: append([]uint64(nil), g.adj...)} }
 
 func (g *BGr) del(i, j int) {
 	g.adj[i] &^= 1 << uint(j)
